@@ -12,9 +12,9 @@ import itertools, json, os, random
 from vf import common, zast, zgen, zmodel as M, zcmp, zcheck
 
 # programs working on ONE value (a DIE, a unit, an attribute) that the input stacks of many executions share
-VAL_PROGS = ["root", "parent", "parent*", "child", "unit", "root parent", "dup root drop parent", "attribute", "@AT_name", "offset", "label", '"%s"', "root offset",
+VAL_PROGS = ["address", "low", "high", "root", "parent", "parent*", "child", "unit", "root parent", "dup root drop parent", "attribute", "@AT_name", "offset", "label", '"%s"', "root offset",
              "parent parent", "(|D| D root D parent)", "child parent", "unit root", "name", "?root", "abbrev code", "raw parent", "cooked root", '(|D| D root "%s" D "%s")']
-DW_PROGS = ["entry ?root", "unit root ?root offset", "entry parent* ?root offset", 'unit "%s"', '(|Dw| (10, 11, 12) "<%s>")', 'entry ?TAG_subprogram "%s"',
+DW_PROGS = ["entry address", "entry ?TAG_base_type address", "unit", "abbrev", "entry ?root", "unit root ?root offset", "entry parent* ?root offset", 'unit "%s"', '(|Dw| (10, 11, 12) "<%s>")', 'entry ?TAG_subprogram "%s"',
             '(|Dw| Dw unit "%s" 16 "%s|%s")', '(|Dw| [Dw entry offset] "%s")', '(|Dw| Dw entry ?root "%( offset %)/%s")', "entry parent", "entry (offset == 0x1d) parent*", "unit root child", "entry abbrev", "abbrev entry",
             "entry ?(child) [child offset]", "entry @AT_name", "entry attribute value", "[entry offset] length", "symbol name",
             "entry (|D| D child ?(parent == D))", "entry root", "entry @AT_type*", "entry ?TAG_subprogram child ?root"]
@@ -31,6 +31,8 @@ def nested_splices(n):
 
 
 # texts at and beyond the limits at which a query is refused, and other refused texts: a refusal must leave nothing behind
+# words that print a warning or fix an operand up on the way (the fix-up must happen every time, not once per process)
+SYNTAX_STATE += ["-3 0x10 aset", "0x10 -3 aset", "-3 0x10 aset length", "1 5 aset -2 ?contains", '"a" 1 add', "1 0 div", "(1, 2) 0 mod", "-3 0x10 aset"]
 SYNTAX_STATE += [nested_splices(99), nested_splices(100), nested_splices(3), "[" * 330 + "]" * 330, "[" * 600 + "]" * 600, "1 )", '"abc', "let A := ;", '"%( 1 "',
                  nested_splices(100), nested_splices(99)]
 
